@@ -64,6 +64,7 @@ fn main() {
         notes: Vec::new(),
         opaque: Vec::new(),
         req_ignore_assign: Vec::new(),
+        effect_arg: None,
     };
     let _ = FEATURES.set(spec.cfg_features.clone());
     let mut results = Vec::new();
@@ -94,6 +95,7 @@ fn main() {
                 "effect_list" => tr.effect_list(rq),
                 "closure_value" => tr.closure_value(rq),
                 "loop_body" => tr.loop_body(rq),
+                "loop_step" => tr.loop_step(rq),
                 k => Err(TErr { file: "<spec>".into(), line: 0, msg: format!("unknown request kind `{k}`"), excluded: false }),
             }
         };
